@@ -952,7 +952,17 @@ def check_c12(case, log, oc, labels):
                         oc.bad("timed-wait-disturbs-progress", what + ": remaining %r, expected %r" % (rem, exp))
             elif g["E"] == g["X"] and any(a == r["a"] for d, a, _ in g["cancellers"] if d == g["X"]) and x["creator"] == r["a"]:
                 labels.add("info/cancelled")
-                if state != "CANCELED":
+                # The s4u state is a field of the shared s4u::Activity object: cancel() writes CANCELED, but ANOTHER actor that waits for
+                # the same object and is failed by the cancellation writes FAILED over it (ActivitySet::handle_failed_activities() /
+                # Activity::complete(FAILED)).  FAILED is accepted only when such a foreign waiter returned with an exception at the
+                # cancellation date before this observation; otherwise the state must be CANCELED.
+                foreign = any(q["a"] != r["a"] and q["op"][0] in ("twait", "twait_any") and q["t_ret"] == g["X"] and q.get("exc")
+                              and q["n_ret"] < r["n_ret"] and
+                              (op[1] in q["op"][1] if isinstance(q["op"][1], list) else q["op"][1] == op[1])
+                              for q in ops if q["t_ret"] is not None)
+                if foreign and state == "FAILED":
+                    labels.add("info/cancelled-state-overwritten-by-a-failed-foreign-waiter")
+                elif state != "CANCELED":
                     oc.bad("wait_for_or_cancel-does-not-cancel", what + ": state %s after the cancellation at %r" % (state, g["X"]))
     # the activities themselves complete at their natural date, whatever the waits did
     for l in log.of("act_end"):
